@@ -68,7 +68,10 @@ def random_script(rng, level, size, skip, mx, n):
             steps.append({"a": "tick"})
             steps.append({"a": "tick"})
     steps.append({"a": "tick"})
-    return {"level": level, "size": size, "skip": skip, "max": mx, "steps": steps}
+    sc = {"level": level, "size": size, "skip": skip, "max": mx, "steps": steps}
+    if level == "icpt" and rng.random() < 0.3:          # GeneratorStreamsFilter replaces the default feedback-list test
+        sc["filt"] = rng.choice(["all", "odd", "none"])
+    return sc
 
 
 def run_batch(ctx, scripts, tag):
@@ -114,6 +117,8 @@ def run(ctx):
         for sc in rng.sample(scripts, min(k, len(scripts))):
             sc2 = dict(sc)
             sc2["level"] = "icpt"
+            if rng.random() < 0.15:
+                sc2["filt"] = rng.choice(["all", "odd"])
             icpt_sample.append(sc2)
     # (G) the same behaviours through the interceptor (stream filter, per-SSRC maps, tick loop, max-nack counters)
     run_batch(ctx, icpt_sample, "G-icpt")
